@@ -600,9 +600,9 @@ def check_case(case, req, real, lo):
         # oracle 1: the MPO is the path sum of the graph
         base_dense = mpo_dense(H, 0, n_sites)
         gd = graph_dense(graph, window)
-        if (base_dense is None) != (gd is None) and not case.get('malformed'):
-            fails.append(('property', 'ext.oracle.mpo_vs_graph.missing', f'{base_dense is None} {gd is None}'))
-        elif base_dense is not None and gd is not None:
+        if gd is None and base_dense is not None:
+            gd = np.zeros_like(base_dense)      # no path fits into the window
+        if base_dense is not None and gd is not None:
             if oc.maxdiff(base_dense, gd) > TOL * max(1.0, np.max(np.abs(gd))):
                 fails.append(('property', 'ext.oracle.mpo_vs_graph', f'maxdiff {oc.maxdiff(base_dense, gd)}'))
             else:
